@@ -140,7 +140,7 @@ class Cleaner(object):
         # - Keyword
         # - Mac
         # - Password
-        for obf in set(self.obfuscate.keys()) - set(no_obfuscate or []):
+        for obf in sorted(set(self.obfuscate.keys()) - set(no_obfuscate or [])):
             if self.obfuscate[obf]:
                 parsers.append((self.obfuscate[obf], {'width': width}))
 
